@@ -52,7 +52,7 @@ def check(run):
     if binp is None or not lib.driver_path().exists():
         return
     rng = run.rng
-    n = 10000 if run.tier == "quick" else 200000
+    n = 30000 if run.tier == "quick" else 200000
     lines = []
     for i in range(n):
         ops = []
